@@ -66,9 +66,9 @@ class Execution:
             if c >= len(order):
                 self.fault = f"divergence: prefix choice {c} at point {i} but only {len(order)} enabled ({loc})"
                 c = 0
-        self.points.append((tid, loc, len(order), c, is_exit))
-        self.clock += 1
         target = order[c]
+        self.points.append((tid, loc, len(order), c, is_exit, target))
+        self.clock += 1
         if target != tid:
             self.current = target
             self.sems[target].release()
@@ -284,7 +284,7 @@ def run_schedule(make_bodies, prefix, timeout=20.0):
             if i0 >= len(order):
                 ex.fault = "divergence at initial choice"
                 i0 = 0
-        ex.points.append((-1, "start", len(order), i0, True))
+        ex.points.append((-1, "start", len(order), i0, True, order[i0]))
         ex.current = order[i0]
         ex.sems[order[i0]].release()
         if not ex.all_done.wait(timeout):
@@ -303,7 +303,7 @@ def run_schedule(make_bodies, prefix, timeout=20.0):
 
 def preemptions(points, upto=None):
     pts = points if upto is None else points[:upto]
-    return sum(1 for (_t, _l, _n, c, is_exit) in pts if c != 0 and not is_exit)
+    return sum(1 for (_t, _l, _n, c, is_exit, _g) in pts if c != 0 and not is_exit)
 
 
 def explore(make_bodies, check, bound, prefix=(), stats=None, cap=None, root_only=False):
@@ -325,6 +325,8 @@ def explore(make_bodies, check, bound, prefix=(), stats=None, cap=None, root_onl
         npre = preemptions(ex.points)
         stats[f"preemptions_{npre}"] = stats.get(f"preemptions_{npre}", 0) + 1
         stats["max_points"] = max(stats.get("max_points", 0), len(ex.points))
+        if "owner_seqs" in stats:
+            stats["owner_seqs"].append(tuple(p[5] for p in ex.points))
         v = check(ex, ctx)
         if v is not None:
             v = dict(v)
@@ -337,7 +339,7 @@ def explore(make_bodies, check, bound, prefix=(), stats=None, cap=None, root_onl
             return viols, ex
         choices = [p[3] for p in ex.points]
         for i in range(len(pre), len(ex.points)):
-            _tid, _loc, n_en, _c, is_exit = ex.points[i]
+            _tid, _loc, n_en, _c, is_exit, _g = ex.points[i]
             cost = preemptions(ex.points, i) + (0 if is_exit else 1)
             if cost > bound:
                 continue
